@@ -20,7 +20,7 @@ RULE = (
     "deprecated / missing dependencies), rename (reserved and near-reserved words in every letter case, duplicates), insert / delete a "
     "statement (directives with / without operands, unknown directives, second `---`, padding in unions, attributes after @extent), "
     "extent = max-8 / max / max+8 / max+4, version numbers, fixed port-IDs around every range boundary with the unregulated flag on and "
-    "off for standard and vendor roots, reserved words as type / namespace names.  Oracle: an independent validator over the edited "
+    "off for standard and vendor roots, reserved words as type / namespace names.  The same models are also placed in a dependency (same root or a foreign root namespace) that a valid target references.  Oracle: an independent validator over the edited "
     "*model* (not over which edits were applied): accepted <=> valid, every rejection is an InvalidDefinitionError.  Non-trivial = at "
     "least one edit, or a member of the exhaustive single-rule grids (types x casts x array forms x contexts; reserved words x roles; port-IDs x roots x kinds; versions; extents)."
 )
@@ -68,6 +68,71 @@ def check_rules(case: typing.Any, ctx: Ctx) -> Info:
     if "grid" in case:
         classes.append("grid:" + case["grid"])
     return Info(len(case["edits"]) >= 1 or "grid" in case, classes, sample={"file": where, "verdict": verdict or "valid"})
+
+
+def check_rules_in_dependency(case: typing.Any, ctx: Ctx) -> Info:
+    """The same rules apply to a definition that is only *referenced*: the model is written into another root namespace (or
+    the same one) and read as a dependency of a trivially valid target."""
+    import pydsdl
+
+    model = case["skeleton"]
+    for e in case["edits"]:
+        model = rg.apply_edit(model, e)
+    model = rg.resolve_extents(model)
+    foreign = case["foreign"]
+    # the dependency lives in root "lib" (foreign) or in the target's own root "app"; both are vendor namespaces
+    model = dict(model, root="lib" if foreign else "app")
+    verdict = rules.validate(model, rg.DEP_TABLE)
+    text = rules.render(model)
+    d = ctx.scratch()
+    try:
+        app = os.path.join(d, "w", "app")
+        lib = os.path.join(d, "w2", "lib")
+        folder = os.path.join(lib if foreign else app, *model["ns"])
+        os.makedirs(folder, exist_ok=True)
+        os.makedirs(app, exist_ok=True)
+        os.makedirs(lib, exist_ok=True)
+        for name, (_dep, _spec, src) in rg.DEPS.items():
+            with open(os.path.join(folder, name + ".1.0.dsdl"), "w") as f:
+                f.write(src)
+        fn = rules.file_name(model)
+        with open(os.path.join(folder, fn), "w") as f:
+            f.write(text)
+        full = ".".join([model["root"]] + model["ns"] + [model["short"]])
+        # referenced as a value in an expression: no aggregation constraints (deprecation, services) get in the way
+        with open(os.path.join(app, "Target.1.0.dsdl"), "w") as f:
+            f.write("@deprecated\n@print %s.%d.%d\n@sealed\n" % (full, model["version"][0], model["version"][1]))
+        res, ex = guarded(
+            pydsdl.read_files, [os.path.join(app, "Target.1.0.dsdl")], [app], [lib], None, model["allow_unregulated"],
+            allowed=(pydsdl.InvalidDefinitionError,), what="read_files:dependency",
+        )
+    finally:
+        ctx.cleanup(d)
+    where = "dependency %s/%s (%s root), referenced from app/Target.1.0:\n%s" % ("/".join([model["root"]] + model["ns"]), fn, "foreign" if foreign else "same", text)
+    if verdict is None:
+        require(ex is None, "valid-dependency-rejected", "accepted", "%s: %s" % (type(ex).__name__, str(ex)[-300:]), where)
+    else:
+        require(ex is not None, "invalid-dependency-accepted:" + verdict, "InvalidDefinitionError (%s)" % verdict, "accepted", where)
+    classes = ["as-dependency", "foreign-root" if foreign else "same-root", "valid" if verdict is None else "invalid:" + verdict]
+    return Info(True, classes, sample={"file": where, "verdict": verdict or "valid"})
+
+
+def _dependency_grid(ctx: Ctx) -> typing.Iterable[typing.Any]:
+    """Port-ID and version rules of a definition that is reached only as a dependency, in the same and in a foreign root."""
+    for foreign in (False, True):
+        for service in (False, True):
+            for port in (None, 0, 255, 256, 300, 383, 384, 511, 512, 1234, 6143, 6144, 7000, 7167, 7168, 8191, 8192):
+                for allow in (False, True):
+                    m = _base(short="Sample")
+                    m["port"] = port
+                    m["allow_unregulated"] = allow
+                    m["statements"] = [_sealed()] + ([{"s": "marker"}, _sealed()] if service else [])
+                    yield {"skeleton": m, "edits": [], "foreign": foreign}
+        for version in ([0, 0], [0, 1], [255, 255], [256, 0]):
+            m = _base(short="Sample")
+            m["version"] = version
+            m["statements"] = [_sealed()]
+            yield {"skeleton": m, "edits": [], "foreign": foreign}
 
 
 def _base(short: str = "Foo", root: str = "vendor") -> typing.Any:
@@ -199,4 +264,7 @@ def parts(ctx: Ctx) -> typing.List[Part]:
         Part("edits", cases, check_rules, weight=2),
         Part("single-edit", one_edit, check_rules, weight=2),
         Part("grid", None, check_rules, weight=0, grid=_grid),
+        Part("dependency", st.fixed_dictionaries({"skeleton": rg.skeletons(), "edits": st.lists(rg.edits(), min_size=0, max_size=2), "foreign": st.booleans()}),
+             check_rules_in_dependency, weight=1),
+        Part("dependency-grid", None, check_rules_in_dependency, weight=0, grid=_dependency_grid),
     ]
